@@ -15,6 +15,7 @@ Everything is single-threaded; nested ``get`` calls (tasks or library code
 calling compute while a compute is running) get their own frame.
 """
 import bisect
+import functools
 import heapq
 import hashlib
 from concurrent.futures import Future
@@ -23,6 +24,7 @@ import dask
 import dask.local
 import numpy as np
 from dask.threaded import pack_exception
+from dask._task_spec import DataNode as _DataNode, Task as _Task
 
 POLICIES = ("uniform", "dfs", "bfs", "reverse", "window", "straggler", "prefer")
 
@@ -92,7 +94,9 @@ class _Frame:
 
 
 def _walk_arrays(obj, depth=2, prefix=""):
-    """Yield (path, ndarray) for arrays reachable from obj (a few levels)."""
+    """Yield (path, ndarray) for arrays reachable from obj: containers, and the *definition*
+    of Dask tasks (args, kwargs, functools.partial payloads, nested sub-graphs) - an array bound
+    into the function every block runs is shared by all of those tasks."""
     if isinstance(obj, np.ndarray):
         yield prefix, obj
     elif depth > 0:
@@ -102,6 +106,18 @@ def _walk_arrays(obj, depth=2, prefix=""):
         elif isinstance(obj, (list, tuple)):
             for i, v in enumerate(obj):
                 yield from _walk_arrays(v, depth - 1, prefix + "/%d" % i)
+        elif isinstance(obj, _Task):
+            yield from _walk_arrays(obj.func, depth - 1, prefix + "/func")
+            yield from _walk_arrays(list(obj.args), depth - 1, prefix + "/args")
+            if obj.kwargs:
+                yield from _walk_arrays(dict(obj.kwargs), depth - 1, prefix + "/kwargs")
+        elif isinstance(obj, _DataNode):
+            yield from _walk_arrays(obj.value, depth - 1, prefix + "/value")
+        elif isinstance(obj, functools.partial):
+            yield from _walk_arrays(obj.func, depth - 1, prefix + "/pfunc")
+            yield from _walk_arrays(list(obj.args), depth - 1, prefix + "/pargs")
+            if obj.keywords:
+                yield from _walk_arrays(dict(obj.keywords), depth - 1, prefix + "/pkw")
 
 
 def _digest(a):
@@ -300,7 +316,7 @@ class SimScheduler:
     def _run(self, p, step):
         before = None
         if self.m1:
-            before = [(path, arr, _digest(arr)) for path, arr in _walk_arrays(p.args[0][1], 4)]
+            before = [(path, arr, _digest(arr)) for path, arr in _walk_arrays(p.args[0][1], 7)]
         result = p.fn(p.args)
         if self.reexec_rate and self.rng.random() < self.reexec_rate:
             # probe only: at-least-once execution with the same argument objects
@@ -315,7 +331,9 @@ class SimScheduler:
         if before is not None:
             for path, arr, d in before:
                 if _digest(arr) != d:
-                    self.mutations.append({"step": step, "key": p.kstr, "arg": path})
+                    self.mutations.append({"step": step, "key": p.kstr, "arg": path,
+                                           "in_task_definition": "/func" in path or "/args" in path or "/kwargs" in path,
+                                           "obj": id(arr)})
         if self.watch:
             for (name, arr), (_, d0) in zip(self.watch, self._watch_base):
                 if _digest(arr) != d0 and not any(h["buffer"] == name for h in self.watch_hits):
